@@ -37,6 +37,8 @@ def exc_class(e):
     n = type(e).__name__
     if isinstance(e, Timeout):
         return 'EFuel'
+    if n == 'Injected':
+        return 'EInjected'
     if n == 'SerializationError':
         return 'ESerialization'
     if isinstance(e, ValueError):
@@ -137,6 +139,51 @@ def canon(o):
     return {'o': cls.__qualname__, 'f': fields}
 
 
+class Injected(ValueError):
+    pass
+
+
+def failing_writer(EoWriter, k):
+    """a writer whose k-th add_* call raises (a failing writer, as the property's 'failing writer/reader')"""
+    class FW(EoWriter):
+        pass
+    state = {'n': 0}
+
+    def wrap(name):
+        orig = getattr(EoWriter, name)
+
+        def f(self, *a, **kw):
+            state['n'] += 1
+            if state['n'] == k:
+                raise Injected('injected writer failure')
+            return orig(self, *a, **kw)
+        return f
+    for name in ('add_byte', 'add_bytes', 'add_char', 'add_short', 'add_three', 'add_int', 'add_string', 'add_fixed_string',
+                 'add_encoded_string', 'add_fixed_encoded_string'):
+        setattr(FW, name, wrap(name))
+    return FW()
+
+
+def failing_reader(EoReader, data, k):
+    class FR(EoReader):
+        pass
+    state = {'n': 0}
+
+    def wrap(name):
+        orig = getattr(EoReader, name)
+
+        def f(self, *a, **kw):
+            state['n'] += 1
+            if state['n'] == k:
+                raise Injected('injected reader failure')
+            return orig(self, *a, **kw)
+        return f
+    for name in ('get_byte', 'get_bytes', 'get_char', 'get_short', 'get_three', 'get_int', 'get_string', 'get_fixed_string',
+                 'get_encoded_string', 'get_fixed_encoded_string', 'next_chunk'):
+        setattr(FR, name, wrap(name))
+    return FR(bytes(data))
+
+
 def do_ser(eolib, job):
     from eolib.data.eo_writer import EoWriter
     try:
@@ -144,7 +191,7 @@ def do_ser(eolib, job):
     except BaseException as e:
         return {'construct_error': exc_class(e), 'msg': str(e)[:200]}
     cls = find_class(eolib, job['cls'])
-    w = EoWriter()
+    w = failing_writer(EoWriter, job['fail_at']) if job.get('fail_at') else EoWriter()
     if job.get('pre'):
         w.add_bytes(bytes(job['pre']))
     w.string_sanitization_mode = job['san']
@@ -156,9 +203,9 @@ def do_ser(eolib, job):
     return {'res': res, 'bytes': list(w.to_bytearray()), 'mode': bool(w.string_sanitization_mode)}
 
 
-def do_deser(eolib, cls, data, chunked):
+def do_deser(eolib, cls, data, chunked, fail_at=None):
     from eolib.data.eo_reader import EoReader
-    r = EoReader(bytes(data))
+    r = failing_reader(EoReader, data, fail_at) if fail_at else EoReader(bytes(data))
     if chunked:
         r.chunked_reading_mode = True
     try:
@@ -222,8 +269,12 @@ def run_tree(root, t):
                         for d in mutate(rng, data, job['mutants']):
                             ds.append(do_deser(eolib, cls, d, rng.random() < 0.25))
                     out['deser'] = ds
+            elif op == 'packet':
+                cls = find_class(eolib, job['cls'])
+                out = {'family': int(cls.family()), 'action': int(cls.action()),
+                       'family_type': type(cls.family()).__name__, 'action_type': type(cls.action()).__name__}
             elif op == 'deser':
-                out = do_deser(eolib, find_class(eolib, job['cls']), job['data'], job['chunked'])
+                out = do_deser(eolib, find_class(eolib, job['cls']), job['data'], job['chunked'], job.get('fail_at'))
             else:
                 out = {'error': 'unknown op'}
         except BaseException as e:
